@@ -13,45 +13,13 @@ From Coq Require Import List Bool Arith Lia NArith.
 From IRV Require Import Base.Exn C08.Model C08.Proofs1 C08.Proofs2 C08.Proofs3 C08.Proofs4 C08.Proofs5 C08.Proofs6.
 Import ListNotations.
 
-(* FULL STATEMENT (crash atomicity): for every prefix length k the destination holds its previous node
-   or a file whose bytes are [image fs0 tens (sc_tensors sc)], the latter only if os.replace is among the
-   first k effects.
-   PROVED below: the same with "the bytes the temporary file held once EVERY action between its creation
-   and os.replace (all tensor writes incl. every chunk, close, release, copymode) had returned normally"
-   ([replaced_by_complete]) in place of the closed form [image ..]; never a mixture, never a truncation of
-   the destination: its node is either untouched or moved wholesale from the temporary path.
-   MISSING for full strength: the functional lemma  replaced_by_complete .. d m -> d = image ..  is proved
-   (C08_new_is_image_partial, C08_crash_atomic_image_partial below) for saves whose inputs are in-memory,
-   lazy and third-party multi-chunk tensors; for ExternalTensor inputs (the chunked copy loop ARead/AWriteBuf)
-   it is not proved - there the correspondence check compares exactly these bytes with the implementation
-   on every case. *)
-Theorem C08_crash_atomic_partial :
-  forall fs0 tens small sc k, single_wf fs0 sc ->
-  let dest := dest_of fs0 (sc_req sc) in
-  let s := fst (run_prefix k fs0 tens small sc) in
-  length (s_trace s) <= k /\
-  (lookup (s_fs s) dest = lookup fs0 dest
-   \/ exists d m, lookup (s_fs s) dest = Some (File d m)
-        /\ In (OReplace (tmpf_of sc dest) dest) (s_trace s)
-        /\ replaced_by_complete {| crash_at := Some k; fault_at := None |} fs0 tens sc d m).
-Proof.
-  intros fs0 tens small sc k Hwf. cbv zeta. split; [apply prefix_len|].
-  apply (interrupt_atomic fs0 tens small sc Hwf).
-Qed.
-Print Assumptions C08_crash_atomic_partial.
-
-(* the complete temporary file holds exactly [image] (no ExternalTensor among the written tensors) *)
-Theorem C08_new_is_image_partial :
-  forall fs0 tens sc c d m,
-  forallb no_ext (sc_tensors sc) = true ->
-  replaced_by_complete c fs0 tens sc d m -> d = image fs0 tens (sc_tensors sc).
-Proof. intros fs0 tens sc c d m Hne (s1 & HA & HP). exact (prerepl_image fs0 tens sc c s1 d m HA Hne HP). Qed.
-Print Assumptions C08_new_is_image_partial.
-
-(* full-strength crash atomicity on that sub-domain: old node, or exactly the complete new bytes and only
-   if os.replace is among the first k effects *)
-Theorem C08_crash_atomic_image_partial :
-  forall fs0 tens small sc k, single_wf fs0 sc -> forallb no_ext (sc_tensors sc) = true ->
+(* Crash atomicity, full strength: for every input and every prefix length k at most k effects happened and
+   the destination holds its previous node, or a file whose bytes are exactly [image fs0 tens (sc_tensors sc)]
+   (every tensor's bytes at its offset, holes = zeros) - the latter only if os.replace is among the first k
+   effects.  [src_wf]: the source files of the ExternalTensor inputs are not inside the temporary directory
+   (part of mkdtemp's contract: its name is unpredictable). *)
+Theorem C08_crash_atomic :
+  forall fs0 tens small sc k, single_wf fs0 sc -> src_wf fs0 tens sc ->
   let dest := dest_of fs0 (sc_req sc) in
   let s := fst (run_prefix k fs0 tens small sc) in
   length (s_trace s) <= k /\
@@ -59,10 +27,31 @@ Theorem C08_crash_atomic_image_partial :
    \/ exists m, lookup (s_fs s) dest = Some (File (image fs0 tens (sc_tensors sc)) m)
         /\ In (OReplace (tmpf_of sc dest) dest) (s_trace s)).
 Proof. exact crash_atomic_image. Qed.
-Print Assumptions C08_crash_atomic_image_partial.
+Print Assumptions C08_crash_atomic.
 
-(* the same under any combination of a kill point and a single injected fault *)
-Theorem C08_interrupt_atomic_partial :
+(* the same under any combination of a kill point and a single injected fault, and whatever kind of
+   exception (Exception or BaseException-only, see is_base_exception) a tensor or callback raises *)
+Theorem C08_interrupt_atomic :
+  forall fs0 tens small sc c, single_wf fs0 sc -> src_wf fs0 tens sc ->
+  let dest := dest_of fs0 (sc_req sc) in
+  let s := fst (run c fs0 tens small sc) in
+  lookup (s_fs s) dest = lookup fs0 dest
+  \/ exists m, lookup (s_fs s) dest = Some (File (image fs0 tens (sc_tensors sc)) m)
+       /\ In (OReplace (tmpf_of sc dest) dest) (s_trace s).
+Proof. exact interrupt_atomic_image. Qed.
+Print Assumptions C08_interrupt_atomic.
+
+(* the functional core: the completely written temporary file holds exactly [image], for every tensor kind
+   (in-memory, lazy, third-party multi-chunk, ExternalTensor copied in chunks of any size) *)
+Theorem C08_new_is_image :
+  forall fs0 tens sc c d m, src_wf fs0 tens sc ->
+  replaced_by_complete c fs0 tens sc d m -> d = image fs0 tens (sc_tensors sc).
+Proof. intros fs0 tens sc c d m Hs (s1 & HA & HP). exact (prerepl_image fs0 tens sc c s1 d m Hs HA HP). Qed.
+Print Assumptions C08_new_is_image.
+
+(* without src_wf: the destination node is untouched or was moved wholesale from the temporary path after
+   every action between its creation and os.replace returned normally (never a mixture or truncation) *)
+Theorem C08_interrupt_structural :
   forall fs0 tens small sc c, single_wf fs0 sc ->
   let dest := dest_of fs0 (sc_req sc) in
   let s := fst (run c fs0 tens small sc) in
@@ -71,10 +60,13 @@ Theorem C08_interrupt_atomic_partial :
        /\ In (OReplace (tmpf_of sc dest) dest) (s_trace s)
        /\ replaced_by_complete c fs0 tens sc d m.
 Proof. intros fs0 tens small sc c Hwf. exact (interrupt_atomic fs0 tens small sc Hwf c). Qed.
-Print Assumptions C08_interrupt_atomic_partial.
+Print Assumptions C08_interrupt_structural.
 
 (* Exception (no kill).  SINGLE-FAULT ASSUMPTION, in the statement: the injected OSError - if there is
    one - did not hit os.remove/os.rmdir of the cleanup itself ([OFail true] is logged exactly then).
+   The exception kind e is arbitrary: RuntimeError/OSError/... as well as the BaseException-only kinds
+   (KeyboardInterrupt, SystemExit = OtherError, is_base_exception) - the handlers are `finally`, not
+   `except Exception`.
    Then the whole directory is exactly as before (destination = old node, no temporary file or
    directory, nothing else changed) and every ExternalTensor keeps its validity flag. *)
 Theorem C08_exception_clean :
@@ -143,6 +135,10 @@ Definition ex_tens : list tstate :=
 Definition ex_sc : scn :=
   {| sc_req := [1%N]; sc_tmpd := [7%N]; sc_tensors := [(0, TExt 0); (2, TMem [5%N; 6%N; 7%N])];
      sc_chunk := 1; sc_cb := Some None; sc_cbbase := 0 |}.
+(* Ctrl-C (KeyboardInterrupt) delivered while the progress callback of the second tensor runs *)
+Definition ex_sc_kbd : scn :=
+  {| sc_req := [1%N]; sc_tmpd := [7%N]; sc_tensors := [(0, TExt 0); (2, TMem [5%N; 6%N; 7%N])];
+     sc_chunk := 1; sc_cb := Some (Some (1, OtherError)); sc_cbbase := 0 |}.
 
 Example ex_wf : single_wf ex_fs ex_sc.
 Proof.
@@ -162,6 +158,12 @@ Proof. vm_compute. split; reflexivity. Qed.
 Example ex_fault_clean :
   snd (run_with_fault 7 ex_fs ex_tens [] ex_sc) = SRaise OSError
   /\ s_fs (fst (run_with_fault 7 ex_fs ex_tens [] ex_sc)) = ex_fs.
+Proof. vm_compute. repeat split; reflexivity. Qed.
+Example ex_src_wf : src_wf ex_fs ex_tens ex_sc.
+Proof. intros [|[|h]] x H; simpl in H; inversion H; subst; split; reflexivity. Qed.
+Example ex_keyboard_interrupt_clean :
+  snd (run no_ctl ex_fs ex_tens [] ex_sc_kbd) = SRaise OtherError /\ is_base_exception OtherError = true
+  /\ s_fs (fst (run no_ctl ex_fs ex_tens [] ex_sc_kbd)) = ex_fs.
 Proof. vm_compute. repeat split; reflexivity. Qed.
 Example ex_image : image ex_fs ex_tens (sc_tensors ex_sc) = [2%N; 3%N; 5%N; 6%N; 7%N].
 Proof. vm_compute. reflexivity. Qed.
